@@ -264,6 +264,64 @@ class PDFResourceManager:
         return font
 
 
+# Number of colour components of the colour spaces an inline image can name
+# directly (ISO 32000-1 8.9.7: full names and their abbreviations).
+INLINE_IMAGE_COMPONENTS = {
+    "DeviceGray": 1,
+    "G": 1,
+    "CalGray": 1,
+    "Indexed": 1,
+    "I": 1,
+    "DeviceRGB": 3,
+    "RGB": 3,
+    "CalRGB": 3,
+    "Lab": 3,
+    "DeviceCMYK": 4,
+    "CMYK": 4,
+}
+
+
+def image_data_size(width: int, height: int, bits: int, ncomponents: int) -> int:
+    """Number of bytes of unfiltered image data: each row is padded to a byte"""
+    return height * ((width * bits * ncomponents + 7) // 8)
+
+
+def inline_image_size(d: Mapping[str, object]) -> Optional[int]:
+    """Byte count of the data of an unfiltered inline image, if its dictionary
+    tells (width, height, bits per component and a directly named colour space)
+    """
+
+    def get(*names: str) -> object:
+        for name in names:
+            if name in d:
+                return d[name]
+        return None
+
+    if get("F", "Filter") is not None:
+        return None
+    width = get("W", "Width")
+    height = get("H", "Height")
+    bits: object
+    ncomponents: object
+    if get("IM", "ImageMask") is True:
+        bits = 1
+        ncomponents = 1
+    else:
+        bits = get("BPC", "BitsPerComponent")
+        cs = get("CS", "ColorSpace")
+        if isinstance(cs, list) and cs:
+            cs = cs[0]
+        ncomponents = None
+        if isinstance(cs, PSLiteral):
+            ncomponents = INLINE_IMAGE_COMPONENTS.get(literal_name(cs))
+    for v in (width, height, bits, ncomponents):
+        if type(v) is not int or v <= 0:
+            return None
+    return image_data_size(
+        cast(int, width), cast(int, height), cast(int, bits), cast(int, ncomponents)
+    )
+
+
 class PDFContentParser(PSStackParser[Union[PSKeyword, PDFStream]]):
     def __init__(self, streams: Sequence[object]) -> None:
         self.streams = streams
@@ -298,7 +356,12 @@ class PDFContentParser(PSStackParser[Union[PSKeyword, PDFStream]]):
             self.fp = None  # type: ignore[assignment]
         self.charpos = 0
 
-    def get_inline_data(self, pos: int, target: bytes = b"EI") -> Tuple[int, bytes]:
+    def get_inline_data(
+        self,
+        pos: int,
+        target: bytes = b"EI",
+        length: Optional[int] = None,
+    ) -> Tuple[int, bytes]:
         self.seek(pos)
         i = 0
         data = b""
@@ -337,8 +400,14 @@ class PDFContentParser(PSStackParser[Union[PSKeyword, PDFStream]]):
                     self.charpos = len(self.buf)
         # strip the end marker and the white space after it
         data = data[: -(len(target) + (0 if at_eof else 1))]
-        # strip exactly one trailing end-of-line (`$` would also match before a final LF)
-        data = re.sub(rb"(\x0d\x0a|[\x0d\x0a])\Z", b"", data)
+        if length is not None and data[length:] in (b"\n", b"\r\n", b"\r"):
+            # the image's own size tells its last bytes (which may be CR or LF)
+            # from the end-of-line before the end marker
+            data = data[:length]
+        else:
+            # strip exactly one trailing end-of-line (`$` would also match
+            # before a final LF)
+            data = re.sub(rb"(\x0d\x0a|[\x0d\x0a])\Z", b"", data)
         return (pos, data)
 
     def flush(self) -> None:
@@ -366,7 +435,11 @@ class PDFContentParser(PSStackParser[Union[PSKeyword, PDFStream]]):
                         filter = [filter]
                     if filter[0] in LITERALS_ASCII85_DECODE:
                         eos = b"~>"
-                (pos, data) = self.get_inline_data(pos + len(b"ID "), target=eos)
+                (pos, data) = self.get_inline_data(
+                    pos + len(b"ID "),
+                    target=eos,
+                    length=inline_image_size(d),
+                )
                 if eos != b"EI":  # it may be necessary for decoding
                     data += eos
                 obj = PDFStream(d, data)
